@@ -85,6 +85,15 @@ def run_concrete(cond: Cond, args: dict):
     try:
         ok, interesting = _norm(cond.body(**args))
         return {'pre': True, 'ok': bool(ok), 'interesting': bool(interesting)}
+    except BaseException as e:
+        if type(e).__name__ != 'SeamBypassed':
+            if not isinstance(e, Exception):
+                raise
+            return {'pre': True, 'ok': False, 'interesting': True,
+                    'exception': f'{type(e).__name__}: {e}',
+                    'traceback': traceback.format_exc(limit=12)}
+        return {'pre': True, 'ok': True, 'interesting': False,
+                'harness_error': f'SeamBypassed: {e}'}
     except Exception as e:  # noqa: the harness lets unexpected exceptions escape on purpose
         return {'pre': True, 'ok': False, 'interesting': True,
                 'exception': f'{type(e).__name__}: {e}',
